@@ -189,6 +189,25 @@ def runXServe (ts : List String) : String :=
   let evs := serveLoopH pf (refHandle sc) (stream.length + 1) { config := [(b!"port", b!"6379")] } { authorized := true } stream ([] : Store)
   String.intercalate " " ((showTrace false (evs ++ [.close]) {}).filter fun t => !t.startsWith "hc:")
 
+/-- `conc4 | preload stream | floats | conn 0 stream | conn 1 stream ...`: the preload is executed first; then every
+connection's read-only requests are answered from the same store, whatever the other connections do.  Output: per
+connection the exact bytes of its replies. -/
+def runConc4 (ts : List String) : String :=
+  let secs := splitBar ts
+  let pre := ((secs.getD 1 []).map unhex).flatten
+  let floats := parseFloatTable (secs.getD 2 [])
+  let pf : FloatOracle := fun tok => floats.lookup tok
+  let sc : ScoreTable := fun bits => (floats.find? fun p => p.2 == bits).bind fun p => parseScoreTok p.1
+  let writes (stream : Bytes) : List Bytes :=
+    (serveLoopH pf (refHandle sc) (stream.length + 1) { config := [(b!"port", b!"6379")] } { authorized := true } stream ([] : Store)).filterMap
+      fun e => match e with | .wr bs => some bs | _ => none
+  let nPre := (writes pre).length
+  let conns := secs.drop 3
+  let outs := conns.zipIdx.map fun (toks, i) =>
+    let stream := pre ++ (toks.map unhex).flatten
+    s!"c{i}:{hex ((writes stream).drop nPre).flatten}"
+  String.intercalate " " outs
+
 def showRes (r : HRes) : String :=
   match r.err with
   | some t => (match r.msg with
@@ -246,6 +265,13 @@ def handleLine (toks : List String) : String :=
   | "serve" :: ts => runServeCase (parseServeCase ts)
   | "sys" :: ts => runSysCase ts
   | "xserve" :: ts => runXServe ts
+  | "sserve" :: ts => runXServe ts
+  | "conc4" :: ts => runConc4 ts
+  -- KEYS p and SCAN 0 MATCH p select, from the stored keys, exactly the keys the glob matches (both the same)
+  | "keyscan" :: ph :: ks =>
+    let p := unhex ph
+    let bits := String.ofList (ks.map fun k => if globMatch p (unhex k) then '1' else '0')
+    s!"keys={bits} scan={bits}"
   | "life" :: ts => runLifeCase ts
   | "race" :: _ => racePrediction
   -- a connection blocked in a write is its own goroutine's business: every other connection is served
